@@ -5,7 +5,7 @@ use crate::program::{self, build_prover, finish_ctx, take_ctx, Ctx, Dev, Env, Pr
 use crate::proofparts::Parts;
 use crate::props::common::*;
 use crate::recorder::{draws_from_fills, record_guarded, scalar_from_challenge, Event};
-use crate::schedule::{expected_steps, main_events, run_monitor};
+use crate::schedule::{expected_steps_ordered, main_events, run_monitor};
 use crate::with_curve;
 use ark_ec::{AffineRepr, CurveGroup};
 use ark_ff::{Field, One, Zero};
@@ -199,7 +199,7 @@ pub fn check_program<G: Cv>(env: &Env<G>, prog: &Program, seed: u64) -> Out {
     }
     let mut pool = Pool::new(draws);
     // ---- challenges from the prover's own transcript
-    let steps = expected_steps::<G>(prog, &run.comms, &parts);
+    let steps = expected_steps_ordered::<G>(prog, &run.comms, &parts, &run.ctx.closure_order);
     let matched = match run_monitor(&steps, &mev) {
         Ok(m) => m,
         Err(e) => {
